@@ -48,6 +48,20 @@ func runC17(c *fw.Ctx) {
 	for i := 0; i < c.Pick(1500, 20000); i++ {
 		c.Case(func(k *fw.K) { c17Invalid(k) })
 	}
+	huge := [][]int{{100, 700}, {70001}, {33, 500}, {4097, 4}, {9, 90, 90}, {129, 128}}
+	if c.Quick() {
+		huge = huge[:4]
+	}
+	for _, shape := range huge { // >= 16384 / >= 65536 elements, leading sizes that are not multiples of 8 or 32
+		shape := shape
+		c.Case(func(k *fw.K) { c17Case(k, shape, c17LRs[3+k.Rng.Intn(5)], 1) })
+	}
+	for _, n := range LongSizes {
+		n := n
+		c.Case(func(k *fw.K) {
+			c17Case(k, [][]int{{n}, {2, n}, {n, 3}}[k.Rng.Intn(3)], c17LRs[3+k.Rng.Intn(5)], k.Rng.Intn(3))
+		})
+	}
 }
 
 // c17Weight builds a tracked weight of the given shape and gives it a gradient; src selects how.
